@@ -114,6 +114,11 @@ Definition go_put_le64 (l : list Z) (v : Z) : res (list Z) :=
   if Z.of_nat (length l) <? 8 then Panic "index out of range"
   else Val (le_bytes_z 8 v ++ skipn 8 l).
 
+(* binary.LittleEndian.PutUint32(b, v) for a uint32 v: bounds check `_ = b[3]`, then four bytes *)
+Definition go_put_le32 (l : list Z) (v : Z) : res (list Z) :=
+  if Z.of_nat (length l) <? 4 then Panic "index out of range"
+  else Val (le_bytes_z 4 v ++ skipn 4 l).
+
 Module GoNotations.
   Notation "x <- m ;; k" := (bind m (fun x => k)) (at level 61, m at next level, right associativity).
   Notation "' p <- m ;; k" := (bind m (fun p => k)) (at level 61, p pattern, m at next level, right associativity).
